@@ -15,7 +15,8 @@ RULE = ("scenario = a condition generated from the grammar (&&/|| nesting to dep
         "parser and in prefix form for the model; 8% ill-typed and 5% otherwise rejected conditions (New must fail on both sides); response "
         "code / latency sequences with clock advances, check periods 0..10 s, completions overlapping a trip, 1-4 trip/recover cycles, "
         "OnTripped/OnStandby executions counted after quiescence; 15% latency cycles (slow responses over >= 3 ten-second histogram slots, trip, full cycle with fast responses, evaluations inside the 60 s rolling window); non-trivial = evaluations with both outcomes in one scenario. "
-        "Float: ratios are exact integer pairs; literals have <= 3 decimals and counts stay < 10^4, so a ratio either equals the literal "
+        "15% near-miss scenarios: the ratio reaches p/q exactly while the literal lies 1e-11..1e-5 (relative) beside it, all six comparisons, "
+        "alone and inside and/or nests with a guard (histogram ratio-near-miss). Float: ratios are exact integer pairs; literals are decimals that either equal an attainable ratio or stay >= 1e-11 relative away from it (counts < 10^4), so a ratio either equals the literal "
         "(float division and literal round identically: ratio-tie) or differs by > 2^-40 relative (ratio-too-close must be 0)")
 ASSUMPTIONS = ["LatencyAtQuantileMS is an oracle for the model: the value is read from a shadow memmetrics.RTMetrics fed the same (code, latency) at the "
                "same frozen instants and reset at every observed trip; the harness re-checks the value on the op line on every run. The monitor "
@@ -25,6 +26,9 @@ ASSUMPTIONS = ["LatencyAtQuantileMS is an oracle for the model: the value is rea
                "stale-latency when the value a decision used lies outside the bucket",
                "C18_window composes the breaker with the C17 counter invariant (Proofs/Counter: RCnt.Inv, count_exact) for clock readings "
                "after 1970-01-01 + 10 s; the monitor recomputes the same window from the raw log independently",
+               "side effects: the model counts launches of SideEffect.Exec, one per transition; the outcome of Exec (nil or error, only logged by the "
+               "code) is not modelled and must not change the count: the harness registers succeeding and failing (act, then return an error) effects, "
+               "OnTripped and OnStandby independently, with a Logger that formats every message",
                "float64 rounding of ratios is not modelled (see RULE); time stamps never decrease; atomic steps (C09)"]
 TRUSTED = ["go/parser + vulcand/predicate are inside the tie (the Go side parses the Go-syntax text), the Python printer of the two forms is trusted",
            "side effects are counted once no goroutine launched by the breaker is left (runtime.NumGoroutine quiescence)"]
